@@ -76,6 +76,9 @@ def streams(tier, seed):
             out.append([r, op_simple("interp", r, dim=dim, new_coord=[str(x) for x in c])])
             fine = sorted(set(c + [(c[i] + c[i + 1]) / 2 for i in range(n - 1)] + [c[0] + Fraction(1, 8)]))
             out.append([r, op_simple("interp", r, dim=dim, new_coord=[str(x) for x in fine])])
+            # a target grid reaching BEYOND the axis on both sides (edge values are held, per trace)
+            wide = sorted(set(fine + [c[0] - 1, c[0] - Fraction(1, 3), c[-1] + Fraction(1, 2), c[-1] + 2]))
+            out.append([r, op_simple("interp", r, dim=dim, new_coord=[str(x) for x in wide])])
             # target grids that are NOT ascending (a high-to-low axis, an unordered list): each value belongs to its own label
             out.append([r, op_simple("interp", r, dim=dim, new_coord=[str(x) for x in reversed(fine)])])
             shuf = list(fine); rng.shuffle(shuf)
